@@ -199,6 +199,13 @@ func init() {
 			ruleLookahead(c, r, "")
 			ruleOpMargin(c, r, "")
 			ruleRawCopy(c, r, "")
+			ruleReopenState(c, r, "")
+			ruleEncAvail(c, r, "")
+			{
+				// the LZMA2 chunk header both ways at its boundary values (a chunk of more than 1 MiB)
+				ct := getChunkTables(c, r, "")
+				ruleChunkHeaderCodec(c, r, ct, "")
+			}
 			ruleCtorReopen(c, r, "")
 			ruleLoopAdvanceExact(c, r, "")
 			ruleEncoderDictArgs(c, r, "")
